@@ -21,6 +21,7 @@ func init() {
 			{"C09.R4", "q", "shared: block size agreement", c09r4},
 			{"C07.R6", "q", "recovery replays in ascending (chunk, split) order", c07r6},
 			{"C18.R4", "q", "shared: truncate on all exits", c18r4},
+			{"C18.R2", "q", "shared: keep table (tombstone reservation)", c18r2},
 		},
 	})
 }
